@@ -116,14 +116,42 @@ def judge(world):
 # consumer side: C03, C05 (consumer clauses), C06 collateral
 
 
+def _default_digest_verdict(inner, is_interest):
+    """What the legacy front-end's default validator (sha256_digest_checker) must say about this packet,
+    computed with the independent reader: True / False, or None when the reader cannot tell."""
+    import hashlib
+    try:
+        p = tlvref.parse_interest(inner) if is_interest else tlvref.parse_data(inner)
+        if p.sig_info is None:
+            return True
+        els = tlvref.elements(p.sig_info)
+        st = tlvref.find(els, tlvref.T_SIG_TYPE)
+        if st is None:
+            return None
+        styp = int.from_bytes(p.sig_info[st[2]:st[3]], 'big')
+        if styp != 0:
+            return True             # the digest checker only judges DigestSha256 signatures
+        if p.signed_portion is None or not p.sig_value:
+            return False
+        if getattr(p, 'signed_ambiguous', False):
+            return None
+        return hashlib.sha256(p.signed_portion).digest() == p.sig_value
+    except Exception:
+        return None
+
+
 def _verdict_outcome(fe, vspec, d):
-    """Outcome descriptor once the validator has finished on Data d."""
+    """Outcome descriptor(s) once the validator has finished on Data d (a set)."""
     name = tuple(d['name'])
     content = d['content']
     if vspec is None:
-        # legacy front-end default validator (digest checker): the simulator's Data carry a correct
-        # digest signature or none -> accepted
-        return ('data', name, content)
+        # legacy front-end default validator = digest checker
+        v = _default_digest_verdict(d.get('inner', b''), False)
+        if v is True:
+            return ('data', name, content)
+        if v is False:
+            return ('invalid', name, content, None)
+        return ('either', name, content)
     verdict = vspec.get('verdict', 'PASS')
     if vspec.get('raise') in ('timeout', 'cancel'):
         verdict = 'TIMEOUT'
@@ -255,17 +283,21 @@ def judge_consumer(world, h, relaxed):
             elif kind == 'data':
                 vo = _verdict_outcome(fe, vspec, c)
                 tv = t + lat
-                o03 = {vo}
-                o05 = {vo}
+                if vo[0] == 'either':
+                    o03 = {('data', vo[1], vo[2]), ('invalid', vo[1], vo[2], None)}
+                    vo = ('data', vo[1], vo[2])
+                else:
+                    o03 = {vo}
+                o05 = set(o03)
                 end = tv
                 if tv > dl + W_US:
                     o05 = {('timeout',)}
-                    o03 = {vo, ('timeout',)}
+                    o03 = o03 | {('timeout',)}
                     end = dl
                     late_possible = True
                 elif tv >= dl - W_US:
-                    o05 = {vo, ('timeout',)}
-                    o03 = {vo, ('timeout',)}
+                    o05 = o05 | {('timeout',)}
+                    o03 = o03 | {('timeout',)}
                     world.ambiguous += 1
                 for ce in h.cancels.get(iid, []):
                     if ce['t'] > t:
@@ -300,27 +332,28 @@ def judge_consumer(world, h, relaxed):
                           f'Interest {iid} {_fmt_name(ex["name"])} cbp={ex["cbp"]} life={life_us}us '
                           f'expressed t={te}: finished {_short(act)} at t={a["t"]}; acceptable: '
                           f'{sorted(map(str, map(_short, acc03)))}')
+            nack_exp = any(e[0] == 'nack' for e in acc03)
+            if act[0] == 'nack' or (nack_exp and not any(e[0] != 'nack' for e in acc03)):
+                world.violate('C10', 'nack-outcome', comp, where,
+                              f'Interest {iid} {_fmt_name(ex["name"])}: finished {_short(act)}; the Nack '
+                              f'envelopes received allow only {sorted(map(str, map(_short, acc03)))}')
             if h.had_junk:
                 world.violate('C06', 'collateral-interest', comp, where,
                               f'after malformed input, Interest {iid} finished {_short(act)}; acceptable '
                               f'{sorted(map(str, map(_short, acc03)))}')
         if not ok05:
-            if act[0] == 'data' and late_possible:
+            if act[0] in ('data', 'invalid') and late_possible:
                 world.violate('C05', 'late-validator', comp, where,
-                              f'Interest {iid}: validator finished after the deadline (t={dl}us) yet the '
-                              f'payload was returned at t={a["t"]}')
-            elif act[0] == 'data':
-                world.violate('C05', 'consumer-unvalidated', comp, where,
-                              f'Interest {iid} returned payload {_short(act)}; acceptable '
-                              f'{sorted(map(str, map(_short, acc05)))}')
-            elif any(e[0] == 'invalid' for e in acc05) and ok03 is False or act[0] == 'invalid':
+                              f'Interest {iid}: the validator finished after the deadline (t={dl}us) yet its '
+                              f'result {_short(act)} was returned at t={a["t"]} instead of a timeout')
+            elif act[0] == 'invalid':
                 world.violate('C05', 'failure-shape', comp, where,
                               f'Interest {iid} finished {_short(act)}; acceptable '
                               f'{sorted(map(str, map(_short, acc05)))}')
-            elif late_possible:
-                world.violate('C05', 'late-validator-outcome', comp, where,
-                              f'Interest {iid}: validator outlived the deadline; finished {_short(act)}, '
-                              f'expected timeout')
+            elif act[0] == 'timeout' and acc05 and all(e[0] == 'invalid' for e in acc05):
+                world.violate('C05', 'failure-swallowed', comp, where,
+                              f'Interest {iid}: the validator rejected the Data before the deadline but the '
+                              f'Interest ended with a timeout; acceptable {sorted(map(str, map(_short, acc05)))}')
         # direct safety core of C05, independent of the outcome model: payload only after an
         # accepting run of *this* Interest's validator
         if act[0] == 'data' and vspec is not None:
@@ -455,8 +488,16 @@ def judge_producer(world, h, relaxed):
                         if vs.get('verdict', 'PASS') not in TRUTHY_V1:
                             deliver = False
                             why = 'validator-rejected'
-                    # vs None: library default digest checker; simulator's signed Interests carry a valid
-                    # digest signature or an HMAC one (not checked by the default) -> delivered
+                    else:
+                        # library default: digest checker
+                        dv = _default_digest_verdict(c.get('inner', b''), True)
+                        if dv is False:
+                            deliver = False
+                            why = 'validator-rejected'
+                        elif dv is None:
+                            world.ambiguous += 1
+                            skip_keys.add(key_n)
+                            continue
         k = (hid,) + key_n
         if deliver:
             expected[k] += 1
@@ -558,14 +599,15 @@ def judge_producer(world, h, relaxed):
             continue
         if len(sent) > 1:
             world.violate('C04', 'reply-multi', fe, 'reply', f'one reply call transmitted {len(sent)} packets')
-        if e['t'] < dl - W_US:
+        w_us = W_US + world.cfg.get('wall_gran_us', 1000)      # the reply deadline is read off the wall clock
+        if e['t'] < dl - w_us:
             if not sent:
                 world.violate('C04', 'reply-not-sent', fe, 'reply',
                               f'reply at t={e["t"]}us before the deadline t={dl}us was not transmitted')
             elif not e['ret']:
                 world.violate('C04', 'reply-return', fe, 'reply',
                               f'reply was transmitted but the callback returned {e["ret_repr"]}')
-        elif e['t'] > dl + W_US:
+        elif e['t'] > dl + w_us:
             if sent:
                 world.violate('C04', 'reply-late-sent', fe, 'reply',
                               f'reply at t={e["t"]}us after the deadline t={dl}us was transmitted')
